@@ -53,3 +53,9 @@ pub assume_specification<T> [std::mem::take] (x: &mut T) -> (r: T) where T: std:
 pub broadcast axiom fn vec_default_is_empty<T>(v: Vec<T>) ensures #[trigger] is_default(v) ==> v@.len() == 0;
 
 
+
+// TRUSTED std contract (not used by the pinned code; lets a change that uses it be judged): Vec::dedup_by_key keeps a subsequence of the vector --
+// only that it never grows and keeps its first element is stated
+pub assume_specification<T, A, F, K> [std::vec::Vec::<T, A>::dedup_by_key] (v: &mut std::vec::Vec<T, A>, key: F)
+    where A: std::alloc::Allocator, F: FnMut(&mut T) -> K, K: PartialEq
+    ensures final(v)@.len() <= old(v)@.len(), old(v)@.len() > 0 ==> final(v)@.len() > 0 && final(v)@[0] == old(v)@[0];
